@@ -107,7 +107,7 @@ def in_unit(x):
     return isinstance(x, (int, float)) and not math.isnan(x) and -1e-12 <= x <= 1 + 1e-12
 
 
-def check_knowledge(ck, kb, miner, inp, min_conf, seeded):
+def check_knowledge(ck, kb, miner, inp, min_conf, seeded, expected_objects=None):
     """the property on one mined knowledge base"""
     def fail(sig, observed):
         ck.oracle_failures.append({'signature': sig, 'input': inp, 'observed': observed})
@@ -149,6 +149,12 @@ def check_knowledge(ck, kb, miner, inp, min_conf, seeded):
         missing = [n.id for n in nodes if n.id not in covered]
         if missing:
             return fail('event-object-in-no-instance', 'not covered: %s' % missing[:3])
+        # the same, stated on the events: every object of a property that is associated with a concept shows up
+        # as an attribute value of some concept instance (whether or not the other end of its relations is present)
+        have = {(a.object_type_name, a.value) for inst in coll.concepts.values() for a in inst.attributes}
+        lost = sorted(set(expected_objects or ()) - have)
+        if lost and min_conf <= 0.1:
+            return fail('event-object-in-no-instance/by-events', 'objects of concept properties without any concept attribute: %s' % lost[:3])
     return True
 
 
@@ -163,7 +169,28 @@ def run_one(ck, rng, terms, metas):
         return
     evs = gen_events(rng, onto, rng.randint(1, 8))
     rng.shuffle(evs)
-    doc = G.document([OL.onto_xml(onto)] + [G.event_xml(t, '/s/', p) for t, p in evs])
+    children = [OL.onto_xml(onto)] + [G.event_xml(t, '/s/', p) for t, p in evs]
+    evs_by_onto = [(onto, evs)]
+    if rng.random() < 0.4:
+        # a later ontology element upgrades an event type: one more name / description / container relation; more events follow
+        import copy as _copy
+        up = _copy.deepcopy(onto)
+        et = rng.choice(up['event-types'])
+        single = [p for p in et['properties'] if not p['multivalued'] and p['object-type'] != 'time']
+        free = [t for t in ('name', 'description', 'container') if not any(r['type'] == t for r in et['relations'])]
+        if len(single) >= 2 and free:
+            a, b = rng.sample(single, 2)
+            et['relations'].append(OL.REL(rng.choice(free), a['name'], b['name']))
+            et['version'] = 2
+            try:
+                OL.load(up)
+                evs2 = gen_events(rng, up, rng.randint(1, 5))
+                children += [OL.onto_xml(up)] + [G.event_xml(t, '/s/', p) for t, p in evs2]
+                evs_by_onto.append((up, evs2))
+                ck.dist('ontology-upgraded-mid-stream')
+            except Exception:
+                pass
+    doc = G.document(children)
     min_conf = rng.choice([0.1, 0.1, 0.05, 0.01, 0.3, 0.6, 0.001])
     max_depth = rng.choice([10, 10, 1, 2, 3, 50])
     inp = {'document': doc.decode('utf-8'), 'min_confidence': min_conf, 'max_depth': max_depth}
@@ -186,13 +213,23 @@ def run_one(ck, rng, terms, metas):
     ck.cov['evaluations'] += 1
     ck.dist('concepts:%d' % min(len(kb.concept_collection.concepts), 6))
     try:
-        if not check_knowledge(ck, kb, p.miner, inp, min_conf, seeded=False):
+        expected_objects = set()
+        for o_, evs_ in evs_by_onto:
+            ets_ = {e['name']: e for e in o_['event-types']}
+            for tname, props in evs_:
+                for k, v in props:
+                    pr = next(x for x in ets_[tname]['properties'] if x['name'] == k)
+                    if pr['concepts']:
+                        expected_objects.add((pr['object-type'], v))
+        if not check_knowledge(ck, kb, p.miner, inp, min_conf, seeded=False, expected_objects=expected_objects):
             return
     except Exception as e:
         ck.oracle_failures.append({'signature': 'reading-the-result-raises/%s' % type(e).__name__, 'input': inp, 'observed': '%s: %s' % (type(e).__name__, str(e)[:200])})
         return
     # universals: exactly the pairs present in the events
-    want = universals_expected(onto, evs)
+    want = set()
+    for o_, evs_ in evs_by_onto:
+        want |= universals_expected(o_, evs_)
     try:
         j1 = kb.to_json()
     except Exception as e:
